@@ -7,7 +7,7 @@ from ..core import AnalysisError, call_name, const_value, kwarg, unparse, walk_n
 from ..exprs import cmp_canon, conjuncts, inline, single_defs
 from ..selftest import B, M
 from .common import F_QUAL, asserts_in, calls, cfg_of, construct, loc, short
-from .grouped import check_append_absent
+from .grouped import _flatten_conditions, check_append_absent
 
 EXPLANATION = (
     "Decides on ChainedDiscretizer's current source: R-append-absent (no append of a value that may "
@@ -145,16 +145,21 @@ def rule_unknown(ctx):
     cfg = cfg_of(ctx, fp)
     # 'raise' branch: an assertion that fails whenever unknown values exist, naming the feature
     raising = []
+    def is_raise(t, pol):
+        cc = cmp_canon(t)
+        return (cc == ("'raise'", "==", "self.unknown_handling") and pol) or (cc == ("'raise'", "!=", "self.unknown_handling") and not pol) or (cc == ("'drop'", "==", "self.unknown_handling") and not pol)
+
     for a in asserts_in(fp):
-        conds = cfg.path_conditions(a)
-        if any(cmp_canon(t) in (("'raise'", "==", "self.unknown_handling"),) and pol for t, pol in conds):
+        conds = _flatten_conditions(cfg.path_conditions(a))
+        if any(is_raise(t, pol) for t, pol in conds):
             raising.append(a)
     ok = False
     for a in raising:
         conds = cfg.path_conditions(a)
         under_unknown = any(pol and "unknown_values" in unparse(t) for t, pol in conds)
         t = unparse(a.test).replace(" ", "")
-        fails = t in ("notlen(unknown_values)>0", "len(unknown_values)==0", "False", "notunknown_values")
+        cct = cmp_canon(a.test)
+        fails = t in ("False", "notunknown_values") or cct in (("len(unknown_values)", "<=", "0"), ("0", "==", "len(unknown_values)"), ("len(unknown_values)", "<", "1"))
         names = a.msg is not None and any(isinstance(n, ast.Name) and n.id == "feature" for n in ast.walk(a.msg))
         ok = ok or (under_unknown and fails and names)
     ctx.ob(R, construct(fp, "'raise': AssertionError naming the feature when an unknown value exists"), ok, loc(fp, raising[0] if raising else None))
@@ -164,7 +169,8 @@ def rule_unknown(ctx):
     for c in grp:
         conds = cfg.path_conditions(c)
         in_else = any(cmp_canon(t) == ("'raise'", "==", "self.unknown_handling") and not pol for t, pol in conds) or any(
-            cmp_canon(t) == ("'drop'", "==", "self.unknown_handling") and pol for t, pol in conds)
+            cmp_canon(t) == ("'drop'", "==", "self.unknown_handling") and pol for t, pol in conds) or any(
+            cmp_canon(t) == ("'raise'", "!=", "self.unknown_handling") and pol for t, pol in conds)
         loops = [l for l in cfg.enclosing_loops(c) if isinstance(l, ast.For)]
         ok = ok or (in_else and loops and unparse(loops[0].iter) == "unknown_values" and unparse(loops[0].target) == unparse(c.args[0]))
     ctx.ob(R, construct(fp, "'drop': every unknown value is grouped into str_nan"), ok, loc(fp, grp[0] if grp else None))
